@@ -12,6 +12,9 @@ AST (python tuples)
               ("bin", op, l, r)   op in + - * / % < <= > >= == != && ||
               ("not", e) ("neg", e) ("or", e, fallback) ("get", e) ("unwrapinto", name, e)
               ("call", name, [args]) ("selfcall", [args]) ("list", [elems]) ("index", e, int | varname)
+              ("field", obj, name) ("mcall", obj, method, [args]) ("is", a, b)        class instances: ("call", ClassName, [ctor args])
+  statement : ("class", name, [(field, type)], [(ctor param, type)], ctor body, [(method, [(param, type)], rettype|None, body)])
+              ("setfield", obj, field, expr)
 
 Semantics (what the language prescribes; sources: README, compiler/src/tests/*.rs):
   * statements run in order; a function call evaluates its arguments left to right, then runs the body in a fresh scope;
@@ -24,7 +27,7 @@ Semantics (what the language prescribes; sources: README, compiler/src/tests/*.r
   * `&&` / `||` evaluate their right operand only when the left one does not decide; `(x) or y` evaluates y only when x is nil;
   * a failing assert, zero divisor, overflow, `get nil`, index out of range stops the program there with a failure status."""
 import z3
-from core import (Fail, Unsupported, OutOfBound, NIL, ListRef, Cell, Fn, is_sym, is_int, is_bool, arith, compare, negate, logic_not,
+from core import (Fail, Unsupported, OutOfBound, NIL, ListRef, Cell, Fn, Obj, is_sym, is_int, is_bool, arith, compare, negate, logic_not,
                   logic, equals)
 
 
@@ -47,6 +50,13 @@ class Closure:
 
     def __init__(self, name, params, body, env):
         self.name, self.params, self.body, self.env = name, params, body, env
+
+
+class ClassV:
+    __slots__ = ("name", "fields", "ctor_params", "ctor_body", "methods", "env")
+
+    def __init__(self, name, fields, ctor_params, ctor_body, methods, env):
+        self.name, self.fields, self.ctor_params, self.ctor_body, self.methods, self.env = name, fields, ctor_params, ctor_body, methods, env
 
 
 class Interp:
@@ -163,6 +173,21 @@ class Interp:
                     counter.v = arith(o, "+", counter.v, s)
             finally:
                 scopes.pop()
+        elif k == "class":
+            _, name, fields, cparams, cbody, methods = st
+            env = {}
+            if outer is not None:
+                env.update(outer)
+            for sc in scopes:
+                env.update(sc)
+            cv = ClassV(name, fields, cparams, cbody, {m[0]: m for m in methods}, env)
+            env[name] = Cell(cv)          # a class can name itself
+            self.assign(name, cv, scopes)
+        elif k == "setfield":
+            # `obj.f = e`: the value is evaluated before the target object
+            v = self.expr(st[3], scopes, outer, me)
+            ob = self.expr(st[1], scopes, outer, me)
+            self.field_cell(ob, st[2]).v = v
         elif k == "def":
             _, name, params, ret, body = st
             env = {}
@@ -174,7 +199,23 @@ class Interp:
         else:
             raise Unsupported("statement " + k)
 
+    def field_cell(self, ob, name):
+        if ob is NIL:
+            raise Fail("lookup", "nil object")
+        if not isinstance(ob, Obj) or name not in ob.vars:
+            raise Unsupported("field `%s` of a non-object" % name)
+        return ob.vars[name]
+
+    def method(self, ob, cv, mname, args):
+        _, params, ret, body = cv.methods[mname]
+        return self.call(Closure(cv.name + "::" + mname, [("self", "Self")] + list(params), body, cv.env), [ob] + args)
+
     def call(self, f, args):
+        if isinstance(f, ClassV):
+            ob = Obj(f.name, {fn: Cell(NIL) for fn, _ in f.fields})
+            ob.vars["$class"] = Cell(f)
+            self.call(Closure(f.name + "::$constructor", [("self", "Self")] + list(f.ctor_params), f.ctor_body, f.env), [ob] + args)
+            return ob
         if not isinstance(f, Closure):
             raise Unsupported("call of a non-function")
         self.depth += 1
@@ -234,6 +275,22 @@ class Interp:
             if v is NIL:
                 return self.expr(e[2], scopes, outer, me)
             return v
+        if k == "field":
+            return self.field_cell(self.expr(e[1], scopes, outer, me), e[2]).v
+        if k == "mcall":
+            ob = self.expr(e[1], scopes, outer, me)          # receiver first, then the arguments left to right
+            args = [self.expr(a, scopes, outer, me) for a in e[3]]
+            if ob is NIL:
+                raise Fail("lookup", "nil object")
+            if not isinstance(ob, Obj):
+                raise Unsupported("method call on a non-object")
+            return self.method(ob, ob.vars["$class"].v, e[2], args)
+        if k == "is":
+            l = self.expr(e[1], scopes, outer, me)
+            r = self.expr(e[2], scopes, outer, me)
+            if isinstance(l, (Obj, ListRef)) and isinstance(r, (Obj, ListRef)):
+                return l is r
+            return equals(l, r)
         if k == "unwrapinto":
             v = self.expr(e[2], scopes, outer, me)
             self.assign(e[1], v, scopes)          # `a ?= e` stores the value of e into a ...
@@ -309,6 +366,12 @@ def rexpr(e, inputs=None):
         return "(-%s)" % rexpr(e[1], inputs)
     if k == "or":
         return "((%s) or %s)" % (rexpr(e[1], inputs), rexpr(e[2], inputs))
+    if k == "field":
+        return "%s.%s" % (rrecv(e[1], inputs), e[2])
+    if k == "mcall":
+        return "%s.%s(%s)" % (rrecv(e[1], inputs), e[2], ", ".join(rexpr(a, inputs) for a in e[3]))
+    if k == "is":
+        return "(%s is %s)" % (rexpr(e[1], inputs), rexpr(e[2], inputs))
     if k == "unwrapinto":
         return "(%s ?= %s)" % (e[1], rexpr(e[2], inputs))
     if k == "get":
@@ -322,6 +385,15 @@ def rexpr(e, inputs=None):
     if k == "index":
         return "%s[%s]" % (rexpr(e[1], inputs), e[2])
     raise ValueError(k)
+
+
+def rrecv(e, inputs):
+    """receiver of a field access / method call: names and member chains as they are, everything else in parentheses"""
+    if e[0] in ("var", "field", "mcall"):
+        return rexpr(e, inputs)
+    if e[0] == "get":
+        return "(get %s)" % rexpr(e[1], inputs)
+    return "(%s)" % rexpr(e, inputs)
 
 
 def rstmts(stmts, ind, inputs=None):
@@ -373,6 +445,21 @@ def rstmts(stmts, ind, inputs=None):
                 h += ", %s" % name
             out.append(h + " {")
             out += rstmts(body, ind + 1, inputs)
+            out.append(t + "}")
+        elif k == "setfield":
+            out.append("%s%s.%s = %s" % (t, rrecv(st[1], inputs), st[2], rexpr(st[3], inputs)))
+        elif k == "class":
+            _, name, fields, cparams, cbody, methods = st
+            out.append("%sclass %s {" % (t, name))
+            for fn, ft in fields:
+                out.append("%s\t%s: %s" % (t, fn, ft))
+            out.append("%s\tconstructor(%s) {" % (t, ", ".join(["self"] + ["%s: %s" % p for p in cparams])))
+            out += rstmts(cbody, ind + 2, inputs)
+            out.append("%s\t}" % t)
+            for mn, params, ret, body in methods:
+                out.append("%s\tfn %s(%s)%s {" % (t, mn, ", ".join(["self"] + ["%s: %s" % p for p in params]), (" -> " + ret) if ret else ""))
+                out += rstmts(body, ind + 2, inputs)
+                out.append("%s\t}" % t)
             out.append(t + "}")
         elif k == "def":
             _, name, params, ret, body = st
